@@ -20,7 +20,8 @@ Space (every member is visited):
                  [c, --color, never], [c, --no-color]; and without a command name: [], [-v],
                  [--common, v], [--p-opt, v], [--p-flag] for every parser p; and argv whose LATER words are
                  names of commands / internal option sets: [--common, <name>], [--<default>-opt, <name>, -v],
-                 [x, <name>], [-v, x, <name>, --common, <other name>] for every declared name (a positional
+                 [x, <name>], [-v, x, <name>, --common, <other name>] for every declared name, and argv starting
+                 with the end-of-options marker: [--], [--, a.txt], [--, -odd], [--, <name>], [--, --<p>-opt] (a positional
                  "words" argument is added to the ArgParser for this)
   seq          : every ordered pair of declarations with <= 3 commands (63 x 63; quick: the pairs in which at
                  least one declaration has <= 2 commands, 833), both built in one freshly
@@ -67,7 +68,8 @@ REQUIRED_FEATURES = ["shape:no-edges", "shape:multi-parent", "shape:transitive",
                      "default:implicit", "parents-iterated:declared-order", "parents-iterated:other-order",
                      "probe:own-option", "probe:inherited-direct", "probe:inherited-transitive",
                      "probe:foreign-option", "probe:common-option", "probe:std-option",
-                     "probe:no-command", "probe:no-command-later-name", "probe:all-inherited-at-once",
+                     "probe:no-command", "probe:no-command-later-name", "probe:no-command-end-of-options-marker",
+                     "probe:all-inherited-at-once",
                      "names:punctuated-name-as-parent", "options:two-options-one-dest",
                      "seq:two-parsers"]
 
@@ -360,6 +362,11 @@ def _probe_all(ap, case, acc, feats, bad, tag=""):
         probe(["-v", "x", names[k], "--common", names[(k + 1) % n]], dflt,
               [("words", ["x", names[k]]), ("common", names[(k + 1) % n])], True, "probe:no-command-later-name",
               "-", "default-command-later-word-is-a-name")
+    # the end-of-options marker as first word is not a command name either
+    if not nbad[0]:
+        for tail in ([], ["a.txt"], ["-odd"], [names[n - 1]], [_o(names[dflt])]):
+            probe(["--"] + tail, dflt, [], True, "probe:no-command-end-of-options-marker", "-",
+                  "default-command-end-of-options-marker")
     # first word names an internal option set: outside the property, counted only
     for i in range(n):
         if internal[i]:
@@ -385,7 +392,8 @@ def _case_features(case):
         if internal[c]:
             continue
         feats |= {"probe:own-option", "probe:common-option", "probe:std-option", "probe:no-command",
-                  "probe:all-inherited-at-once", "probe:bare-command", "probe:no-command-later-name"}
+                  "probe:all-inherited-at-once", "probe:bare-command", "probe:no-command-later-name",
+                  "probe:no-command-end-of-options-marker"}
         for p in range(case["n"]):
             if p == c:
                 continue
